@@ -124,11 +124,16 @@ pub fn gen(o: &Opts, sink: &mut dyn FnMut(Vec<i64>, String)) {
         if !mine(o, k) { continue; }
         let mut rng = Rng::new(o.seed, 9_000_000 + j);
         let (da, sa): (i64, Option<i64>) = match rng.below(4) { 0 => (0x4A, Some(0x31)), 1 => (0x01, None), _ => (0x4A, None) };
-        let mut c = vec![1000]; c.extend(crate::c10::config(&[(1, da, sa, 0)]));
+        // one script in twelve: the unit has a 150 ms receive timeout and falls silent for 250 ms
+        // somewhere in the history (commands accepted while the unit is considered offline)
+        let timed = j % 12 == 5;
+        let mut c = vec![1000]; c.extend(crate::c10::config(&[(1, da, sa, if timed { 3 } else { 0 })]));
         if rng.chance(3, 4) { c.push(5); }
         c.push(2);
         let len = 3 + rng.below(14);
-        for _ in 0..len {
+        let silent_at = rng.below(len);
+        for step in 0..len {
+            if timed && step == silent_at { c.extend([4, 250]); }
             let mut m = Vec::new();
             match rng.below(12) {
                 0 | 1 | 2 => c.push(2),
